@@ -357,6 +357,22 @@ func c11Catalogue(c *ev.Ctx) (entries []c11Entry, core int) {
 			})
 		}
 	}
+	// values the library hands out belong to the caller: a matrix from GetConversionMatrix / DefaultOptions is read,
+	// then scribbled on; the next hand-out (and every later sharp conversion) must not have seen the scribble
+	for k, mt := range []sharpyuv.MatrixType{sharpyuv.MatrixWebP, sharpyuv.MatrixRec709Full} {
+		mt, k := mt, k
+		add(fmt.Sprintf("sharpyuv/GetConversionMatrix/%d/caller-scribbles", mt), func() (string, [][]byte) {
+			m := sharpyuv.GetConversionMatrix(mt)
+			if k == 1 {
+				m = sharpyuv.DefaultOptions().Matrix
+			}
+			d := fmt.Sprint(*m)
+			for i := range m.RGBToY {
+				m.RGBToY[i], m.RGBToU[i], m.RGBToV[i] = 12345, -777, 1<<20
+			}
+			return d, nil
+		})
+	}
 	// readers that work on the caller's own bytes (no private copy): the same slice is handed over on every call, so a
 	// decode that scribbles on its input (in-place un-filtering of an uncompressed ALPH plane, say) changes the next result
 	for fl := 1; fl <= 3; fl++ {
